@@ -929,6 +929,9 @@ struct Shared {
 	dir: PathBuf,
 	map_now: AtomicU64,
 	commits_over_threshold: AtomicU64,
+	/// the same, counted since the last observed change of the map size
+	over_since_resize: AtomicU64,
+	over_at_fail: AtomicU64,
 	t0: Instant,
 	committed: Vec<AtomicU64>,
 	attempt: Vec<AtomicU64>,
@@ -960,6 +963,7 @@ impl Shared {
 	fn set_fail(&self, f: Fail) {
 		let mut g = self.fail.lock().unwrap();
 		if g.is_none() {
+			self.over_at_fail.store(self.over_since_resize.load(Ordering::SeqCst), Ordering::SeqCst);
 			*g = Some(f);
 		}
 		self.stop.store(true, Ordering::SeqCst);
@@ -1058,6 +1062,7 @@ fn do_batch(sh: &Shared, store: &Store, slot: usize, g: usize, payload: usize, v
 	// documented 90 % threshold of the map size known when the batch was opened
 	if map_at_open > 0 && file_used(&sh.dir) as f64 > 0.9 * map_at_open as f64 {
 		sh.commits_over_threshold.fetch_add(1, Ordering::Relaxed);
+		sh.over_since_resize.fetch_add(1, Ordering::SeqCst);
 	}
 	sh.committed[g].store(gen, Ordering::SeqCst);
 	sh.batches.fetch_add(1, Ordering::Relaxed);
@@ -1324,6 +1329,8 @@ fn conc_child(plan: &Plan, dir: &Path) -> Value {
 		dir: dir.to_path_buf(),
 		map_now: AtomicU64::new(map0),
 		commits_over_threshold: AtomicU64::new(0),
+		over_since_resize: AtomicU64::new(0),
+		over_at_fail: AtomicU64::new(0),
 		t0: Instant::now(),
 		committed: (0..plan.groups).map(|_| AtomicU64::new(0)).collect(),
 		attempt: (0..plan.groups).map(|_| AtomicU64::new(0)).collect(),
@@ -1355,6 +1362,7 @@ fn conc_child(plan: &Plan, dir: &Path) -> Value {
 		if map_sizes.last() != Some(&map) {
 			map_sizes.push(map);
 			sh.map_now.store(map, Ordering::Relaxed);
+			sh.over_since_resize.store(0, Ordering::SeqCst);
 		}
 		if map >= need {
 			break;
@@ -1365,6 +1373,8 @@ fn conc_child(plan: &Plan, dir: &Path) -> Value {
 		let g = (warm % plan.groups as u64) as usize;
 		let payload = ((map / 40) as usize).min(plan.max_kib as usize * 1024).max(1024);
 		if let Err(f) = do_batch(&sh, &store, 0, g, payload, rng.below(10)) {
+			// single-threaded: a full map here cannot be the concurrent skip of the size check
+			let f = if f.sig == "conc:map-full" { Fail::new("conc:warmup-map-full", format!("single-threaded warm-up, batch {} of {} bytes payload with map sizes {:?}: {}", warm, payload, map_sizes, f.msg)) } else { f };
 			return failv(&f, json!({"phase": "warm-up", "map_sizes": map_sizes, "batches": warm}));
 		}
 		warm += 1;
@@ -1409,6 +1419,7 @@ fn conc_child(plan: &Plan, dir: &Path) -> Value {
 		if map != 0 && map_sizes.last() != Some(&map) {
 			map_sizes.push(map);
 			sh.map_now.store(map, Ordering::Relaxed);
+			sh.over_since_resize.store(0, Ordering::SeqCst);
 			snapshots_at_resize.push(sh.snapshots.load(Ordering::Relaxed));
 		}
 		if map_sizes.len() - 1 - warm_resizes >= plan.target_resizes as usize {
@@ -1469,6 +1480,8 @@ fn conc_child(plan: &Plan, dir: &Path) -> Value {
 			"payload_bytes": sh.payload.load(Ordering::Relaxed),
 			"snapshots_at_resize": snapshots_at_resize,
 			"commits_ending_above_90_percent_of_map": sh.commits_over_threshold.load(Ordering::Relaxed),
+			"such_commits_since_last_resize_at_failure": sh.over_at_fail.load(Ordering::SeqCst),
+			"threads_opening_batches": openers,
 			"data_file_bytes_at_end": file_used(dir),
 			"wall_ms": sh.t0.elapsed().as_millis() as u64,
 		})
@@ -1479,7 +1492,20 @@ fn conc_child(plan: &Plan, dir: &Path) -> Value {
 	for h in handles {
 		let _ = h.join();
 	}
-	if let Some(f) = sh.fail.lock().unwrap().clone() {
+	if let Some(mut f) = sh.fail.lock().unwrap().clone() {
+		if f.sig == "conc:map-full" {
+			// The known mechanism (size check skipped while another thread holds the
+			// resize_checking guard) needs >= 2 threads opening batches and shows as
+			// more commits ending above the 90 % threshold since the last resize than
+			// batches that can have been opened before the threshold was crossed
+			// (one per opener). Anything else is a different defect.
+			let over = sh.over_at_fail.load(Ordering::SeqCst);
+			if !(openers >= 2 && over >= openers.max(2) as u64) {
+				f = Fail::new("conc:map-full:unexplained", format!("{} ({} threads open batches, {} commit(s) ended above 90 % of the map since the last resize: not the skipped-size-check pattern)", f.msg, openers, over));
+			} else {
+				f.msg = format!("{} ({} threads open batches; {} commits ended above 90 % of the map since the last resize without a resize: the size check was skipped)", f.msg, openers, over);
+			}
+		}
 		return failv(&f, stats(&sh, &map_sizes));
 	}
 	if cap_hit {
